@@ -15,6 +15,16 @@ CHECKS = {
             "Held on every generated (dictionary, options, sentence) triple: ~80k tokenizations per quick run over matrix/raw/dual connectors, user lexicons, id mappings, astral/U+0000/U+FFFF characters. A for-all-inputs claim can only be explored, not proved, with this technique.",
             "Trusts the harness's independent reference (char classes, dictionary rows by word index). Domain excludes: categories without unk.def entries and range lines covering U+0000 (open known findings), costs overflowing i32. Termination by watchdog.",
             "5/C01"),
+    "C02": ("exploration",
+            "property-based testing (proptest) with a reference-model oracle: independent Viterbi recurrence over the dumped candidate nodes and over a reference lattice",
+            "Held on ~115k generated (dictionary, options, sentence) triples per quick run: every lattice node's prefix minimum, the EOS minimum (incl. the connection to id 0), each token's running total_cost and the reported path's total equal an independent recomputation; 5% of cases have the EOS connection deciding the winner, 10% have ties.",
+            "Costs come from the harness's reference dictionary and connectors (naive sums). Optimality is judged over the implementation's own candidate nodes read through the lattice-dump hook; candidate correctness is C03. i32 overflow regime not explored.",
+            "5/C02"),
+    "C03": ("exploration",
+            "property-based testing (proptest) with a reference-model oracle: the literal candidate rule re-implemented naively, compared as multisets per position through the lattice dump",
+            "Held on ~115k generated cases per quick run with every sub-rule (invoke suppression, grouping, bound edge run-1 in {max,max+1}, length prefixes, duplicate-run skip, single-char fallback, multi-category chaining, multiple unk entries) occurring in >5% of cases.",
+            "Reference char classes follow 'last covering range line wins, DEFAULT otherwise'. Excluded by construction: range lines covering U+0000 (astral characters take U+0000's class: open known finding), categories without unk entries. ignore_space only in the C12-precondition domain.",
+            "5/C03"),
 }
 
 NOT_YET = "check not built yet in this session (work in progress; see DESIGN.md section 5)"
